@@ -177,10 +177,12 @@ def native_checks():
             elif len(samples) < 2:
                 samples.append(dict(query="native/number", value=repr(v), text=exp))
         # dates and times
-        dates = [datetime.datetime(1900, 3, 1, 0, 0, 0), datetime.datetime(1999, 12, 31, 23, 59, 59),
+        dates = [datetime.datetime(2020, 5, 17, 13, 45, 30, 250000), datetime.datetime(2020, 5, 17, 13, 45, 30, 499000),
+                 datetime.datetime(1900, 3, 1, 0, 0, 0), datetime.datetime(1999, 12, 31, 23, 59, 59),
                  datetime.datetime(2000, 2, 29, 12, 0, 0), datetime.datetime(2021, 3, 17, 0, 0, 0),
                  datetime.datetime(9999, 12, 31, 0, 0, 1), datetime.datetime(1970, 1, 1, 6, 30, 0)]
-        times = [datetime.time(0, 0, 1), datetime.time(12, 0, 0), datetime.time(23, 59, 59), datetime.time(6, 30, 15)]
+        times = [datetime.time(0, 0, 1), datetime.time(12, 0, 0), datetime.time(23, 59, 59), datetime.time(6, 30, 15),
+                 datetime.time(13, 45, 30, 250000)]
         p = os.path.join(d, "dates.xlsx")
         wb = xlsxwriter.Workbook(p)
         ws = wb.add_worksheet()
@@ -203,6 +205,7 @@ def native_checks():
         # XlsxRowWriter round trip
         tables = [
             [["a", "b"], ["c", ""]],
+            [["1", "Doe", "", "male"], ["", "x", "", ""], ["", "", "", "last"]],
             [["=1+2", "mailto:x@example.com"], ["internal:Sheet1!A1", "{=SUM(1,2)}"], ["http://example.com", "ftp://x"]],
             [["äöü€", " lead", "trail "], ["<&>", "'quoted'", '"dq"']],
             [["1", "1.0", "007"], ["TRUE", "2021-03-17", "12:00:00"]],
